@@ -302,8 +302,11 @@ def r6_maxabs(ctx):
                 pair = elt[2][0][2][0]
                 if pair[0] in ("list", "tuple") and len(pair[1]) == 2 and all(x[0] == "call" and x[1][0] == "glob" and len(x[2]) == 1 for x in pair[1]):
                     fns = {pair[1][0][1][1], pair[1][1][1][1]}
-                    same_elem = pair[1][0][2][0] == pair[1][1][2][0] and pair[1][0][2][0][0] == "elem"
-                    all_arrays = c[3][0] == "comp" and c[3][3] == ("param", "*args")
+                    a0 = pair[1][0][2][0]
+                    while a0[0] == "call" and callee(a0) in ("numpy.atleast_1d", "numpy.asarray", "numpy.array") and len(a0[2]) == 1 and not a0[3]:
+                        a0 = a0[2][0]
+                    same_elem = pair[1][0][2][0] == pair[1][1][2][0] and a0[0] == "elem"
+                    all_arrays = a0[0] == "elem" and a0[1] == ("param", "*args") and c[3] == ("param", "*args")
                     if outer == MAX and inner == MAX and fns == {MIN, MAX} and same_elem and all_arrays:
                         ok = True
                     else:
